@@ -356,6 +356,39 @@ pub fn run(ctx: &Ctx) -> Report {
             }
         }
     }
+    // chains of 8 to 11 (thorough: 17) DISTINCT operands over six names: And / Iff chains of two-literal clauses,
+    // Or / Xor chains of two-literal cubes, right- and left-nested: every operand matters for many of them, so
+    // an operand lost by a re-association of long chains changes the count or the diagram
+    if !crate::core::disabled("longchains") {
+        let lit = |v: usize, p: bool| if p { format!("(Var {})", NAMES[v]) } else { format!("(Not (Var {}))", NAMES[v]) };
+        let operand = |i: usize, inner: &str| {
+            let a = i % 6;
+            let mut b = (i * 2 + 1 + i / 6) % 6;
+            if b == a {
+                b = (b + 1) % 6;
+            }
+            format!("({} {} {})", inner, lit(a, i & 1 == 0), lit(b, (i / 2) & 1 == 0))
+        };
+        for (op, inner) in [("And", "Or"), ("Iff", "Or"), ("Or", "And"), ("Xor", "And")] {
+            for k in 8..=ctx.tier.pick(11, 17) {
+                for shift in [0usize, 5] {
+                    let ops: Vec<String> = (0..k).map(|i| operand(i + shift, inner)).collect();
+                    let mut right = ops[k - 1].clone();
+                    for i in (0..k - 1).rev() {
+                        right = format!("({} {} {})", op, ops[i], right);
+                    }
+                    let mut left = ops[0].clone();
+                    for o in ops.iter().skip(1) {
+                        left = format!("({} {} {})", op, left, o);
+                    }
+                    all.push(Ex::parse(&right).unwrap());
+                    if shift == 0 {
+                        all.push(Ex::parse(&left).unwrap());
+                    }
+                }
+            }
+        }
+    }
     for (i, e) in all.iter().enumerate() {
         let n = e.vars().len();
         let perms = permutations(n);
